@@ -926,7 +926,14 @@ class MatrixOperator(Operator):
                 out[:] = self.matrix.dot(x)
             elif self.range.ndim == 1:
                 with writable_array(out) as out_arr:
-                    self.matrix.dot(x, out=out_arr)
+                    if (out_arr.dtype == np.result_type(self.matrix, x) and
+                            out_arr.flags.c_contiguous):
+                        self.matrix.dot(x, out=out_arr)
+                    else:
+                        # `dot` only accepts an `out` array of exactly the
+                        # result data type, e.g. not for a range that is
+                        # wider than the domain
+                        out_arr[:] = self.matrix.dot(x)
             else:
                 # Could use einsum to have out, but it's damn slow
                 # TODO: investigate speed issue
